@@ -242,6 +242,15 @@ def gen_history(rng):
             for kind in rng.sample(["plain", "named", "kwargs", "sig"], 2):
                 variants.append(spec_of_call(c, rng, fkind=kind, fpos=i))
         variants.append(corrupt(spec_of_call(c, rng), rng))
+        # the same description text and arguments handed to other operations (mostly invalid for them): what one operation did
+        # with a description must not change what another makes of it
+        for other in rng.sample(["id", "sum", "max", "mean", "flip", "softmax", "sort", "add", "multiply", "dot", "argmax", "get_at", "set_at", "roll"], 2):
+            if other != c.op:
+                sp = spec_of_call(c, rng)
+                sp["fn"] = other
+                if other == "roll":
+                    sp["kwargs"]["shift"] = ("int", 1)
+                variants.append(sp)
         if c.family != "update_at":
             variants.append(solve_spec(c, rng))
         rng.shuffle(variants)
@@ -266,7 +275,7 @@ def run(ctx):
     import gc
     gc.collect()
     gc.freeze()
-    n = 22 if ctx.tier == "quick" else 700
+    n = 22 if ctx.tier == "quick" else 220
     hs = [gen_history(ctx.rng)[: (14 if ctx.tier == "quick" else 30)] for _ in range(n)]
     keys = {}
 
